@@ -368,6 +368,12 @@ class ExecResolve(ExecCall):
             raise EngineError(f"instantiating abstract {c['name']}")
         ctr = api.CONTRACTS.get(f"{c['name']}.__init__")
         obj = self.allocate(st, qual)
+        newc = api.CONTRACTS.get(f"{c['name']}.__new__")
+        if newc is not None:
+            # constructor contract (assumed): the object is fresh and satisfies the contract's ensures; the body is not executed
+            for s, _ in self.apply_contract(st, newc, obj, args, kwargs, None):
+                yield s, obj
+            return
         if c["is_dataclass"] and self.w.find_member(qual, "__init__")[1] is None:
             flds = w.dataclass_fields(qual)
             init_names = [f["name"] for f in flds if f["init"]]
